@@ -21,7 +21,7 @@ PROPERTY = 'C15'
 RULE = ('tier A: exhaustive small scopes of content models (S1 1 171 050 models over two element names '
         'with <= 3 leaves; S2 models with substitution-head / wildcard leaves; S3 same-named local '
         'declarations; S5 substitution members; S6 a fixed 12 000-model sample of models with prohibited (maxOccurs=0) '
-        'particles), quick = seeded slice, thorough = complete, XSD 1.0 and 1.1; tier B: a fixed '
+        'particles; S7 namespace-list wildcards meeting only on ##local; S8 (XSD 1.1) two heads sharing a member), quick = seeded slice, thorough = complete, XSD 1.0 and 1.1; tier B: a fixed '
         'pool of 24 000 random models up to depth 3 / 8 leaves (quick: seeded 1/12). Oracle: reachable state of the '
         'unrolled position automaton with two candidate next positions from different particles '
         'matching a common name (1.1: element vs wildcard is not a conflict) or two same-named '
@@ -39,8 +39,12 @@ SCOPES = {
     'S2': dict(names='abwW', occs=[(1, 1), (0, 1), (0, None), (2, 3)], max_leaves=2, canon_swap=False),
     'S3': dict(names='xyz', occs=[(1, 1), (0, 1), (0, None)], max_leaves=2, canon_swap=False),
     'S5': dict(names='amb', occs=[(1, 1), (0, 1), (0, None)], max_leaves=2, canon_swap=False),
+    # S7: namespace-list wildcards that meet only on ##local / one namespace; S8 (XSD 1.1 only): two heads sharing a member
+    'S7': dict(names='lLwtb', occs=[(1, 1), (0, 1), (0, None)], max_leaves=2, canon_swap=False),
+    'S8': dict(names='pqjb', occs=[(1, 1), (0, 1), (0, None)], max_leaves=2, canon_swap=False),
 }
-QUICK_FRACTION = {'S1': 0.04, 'S2': 0.25, 'S3': 1.0, 'S5': 1.0, 'S6': 0.1}
+ONLY_11 = {'S8'}
+QUICK_FRACTION = {'S1': 0.04, 'S2': 0.25, 'S3': 1.0, 'S5': 1.0, 'S6': 0.1, 'S7': 0.1, 'S8': 0.15}
 # S6: models with prohibited particles (minOccurs = maxOccurs = 0): a fixed sample of the <= 3-leaf scope
 S6_OCCS = [(1, 1), (0, 1), (0, 0), (1, None), (2, 3)]
 S6_SEED, S6_SIZE = 20260926, 12000
@@ -233,6 +237,8 @@ def shards(tier, seed):
     nshard = 16
     for ver in ('10', '11'):
         for name in list(SCOPES) + ['S6']:
+            if name in ONLY_11 and ver != '11':
+                continue
             for k in range(nshard):
                 out.append(('A', ver, name, k, nshard, tier, seed))
         for k in range(8):
